@@ -20,6 +20,12 @@ RULE = ("seq: random single-client histories (5-40 ops) over counter/gauge/histo
         "ticks), repeated 3000-60000 times on fresh registries; the set of distinct quiescent observations (series map, "
         "seriesCount, drop counters, per-goroutine handle class live/stale/orphan/tombstone with value, conservation residue "
         "'lost') must each be reachable in the exhaustively explored step-interleaving model. "
+        "reg/rreg: 2-4 goroutines released by the barrier straight into Register{Counter,Gauge,Histogram} on a fresh registry "
+        "(first registration of one name by all, two names, Counter vs Gauge vs Histogram on one name, schema mismatch, "
+        "re-registration of a pre-registered name), each then emitting through the metric object IT obtained; observation per "
+        "name from the object the registry maps the name to: number of distinct objects handed out, series, counters, per-goroutine "
+        "registration result and handle class (O = series of an object the registry does not know), conservation residue; must be in "
+        "(reachable registration outcomes) x (reachable metric observations). "
         "Non-trivial: seq case with a series, and a tombstone, unregister, or drop; conc case with >= 2 distinct observations.")
 TRUSTED = ["sync/atomic sequentially consistent, sync.Map Load/LoadOrStore/Delete/CompareAndDelete linearizable (each call = one atomic step of the model)",
            "histogram Observe (3 atomic updates + CAS loop) and gauge Add (CAS loop) are modelled as one atomic update at their linearization point",
@@ -159,6 +165,52 @@ def gen_conc_random(rng, rounds, race=False):
     return conc_line(kind, cap, nl, rounds, rng.choice([0, 0, 1]), "/".join(setup) or "-", progs, race)
 
 
+# registration scenarios: (cap, pre-registered?, threads name@kind@nlabels@prog)
+REG_SCENARIOS = [
+    ("first-registration-4", 2, 0, ["a@c@1@r:%s/e:0:1" % A, "a@c@1@r:%s/e:0:1" % A, "a@c@1@r:%s/e:0:1" % A, "a@c@1@a:%s:1" % A]),
+    ("first-registration-3-tuples", 2, 0, ["a@c@1@r:%s/e:0:1" % A, "a@c@1@r:%s/e:0:2" % B, "a@c@1@r:%s/e:0:3" % A]),
+    ("two-names", 2, 0, ["a@c@1@r:%s/e:0:1" % A, "a@c@1@r:%s/e:0:1" % A, "b@c@1@r:%s/e:0:1" % A, "b@c@1@a:%s:1" % A]),
+    ("type-race", 2, 0, ["a@c@1@r:%s/e:0:1" % A, "a@g@1@-", "a@c@1@r:%s/e:0:1" % A]),
+    ("type-race-3-kinds", 2, 0, ["a@c@1@-", "a@g@1@-", "a@h@1@r:%s/e:0:1" % A]),
+    ("schema-race", 2, 0, ["a@c@1@r:%s/e:0:1" % A, "a@c@2@r:%s/e:0:1" % X1, "a@c@1@r:%s/e:0:1" % A]),
+    ("reregistration-vs-emission", 2, 1, ["a@c@1@r:%s/e:0:1" % A, "a@c@1@r:%s/e:0:2" % A, "a@c@1@a:%s:4" % A]),
+    ("hist-first-registration", 1, 0, ["a@h@1@r:%s/e:0:1" % A, "a@h@1@r:%s/e:0:1" % B, "a@h@1@r:%s/e:0:1" % A]),
+    ("gauge-first-registration", 2, 0, ["a@g@1@r:%s" % A, "a@g@1@r:%s" % A, "b@g@1@r:%s" % B]),
+]
+
+
+def reg_line(cap, rounds, noise, pre, ths, race=False):
+    return "%s %d %d %d %d %s" % ("rreg" if race else "reg", cap, rounds, noise, pre, " ".join(ths))
+
+
+def gen_reg_random(rng, rounds, race=False):
+    n = rng.choice([2, 3, 3, 4])
+    ths = []
+    budget = 6
+    for i in range(n):
+        name = rng.choice("aab")
+        kind = rng.choice("cccch" if rng.random() < 0.8 else "cg")
+        nl = 1 if rng.random() < 0.85 else 2
+        pool = [A, B] if nl == 1 else [X1, X2]
+        k = min(rng.randint(0, 2), max(0, budget - (n - i - 1)))
+        budget -= k
+        ops, ns = [], 0
+        for _ in range(k):
+            t = rng.choice(pool)
+            r = rng.random()
+            if kind == "g" or r < 0.5:
+                ops.append("r:" + t)
+                ns += 1
+            elif r < 0.75 and ns:
+                ops.append("e:%d:%d" % (rng.randrange(ns), 1 if kind == "h" else rng.choice([1, 2])))
+            elif r < 0.9:
+                ops.append("a:%s:%d" % (t, 1 if kind == "h" else rng.choice([1, 3])))
+            else:
+                ops.append("u:" + t)
+        ths.append("%s@%s@%d@%s" % (name, kind, nl, "/".join(ops) or "-"))
+    return reg_line(rng.choice([1, 2, 2, -1]), rounds, rng.choice([0, 0, 1]), rng.choice([0, 0, 0, 1]), ths, race)
+
+
 def gen_cases(rng, tier, budget):
     quick = tier != "thorough"
     cases = []
@@ -178,16 +230,28 @@ def gen_cases(rng, tier, budget):
         cases.append(conc_line(kind, cap, nl, rr, 1, setup, progs, race=True))
     for _ in range(2 if quick else 15):
         cases.append(gen_conc_random(rng, rr, race=True))
+    # metric registration racing registration, emission and snapshots
+    for name, cap, pre, ths in REG_SCENARIOS:
+        cases.append(reg_line(cap, rounds, 0, pre, ths))
+    for name, cap, pre, ths in REG_SCENARIOS[:1] + REG_SCENARIOS[3:4] + REG_SCENARIOS[6:7]:
+        cases.append(reg_line(cap, rounds // 3, 1, pre, ths))
+    for _ in range(5 if quick else 60):
+        cases.append(gen_reg_random(rng, rounds // 2))
+    for name, cap, pre, ths in (REG_SCENARIOS[:1] + REG_SCENARIOS[3:4]) if quick else REG_SCENARIOS:
+        cases.append(reg_line(cap, rr, 1, pre, ths, race=True))
+    for _ in range(1 if quick else 15):
+        cases.append(gen_reg_random(rng, rr, race=True))
     return cases
 
 
 def route(case):
-    return "telemetry_race" if case.startswith("rconc") else "telemetry"
+    return "telemetry_race" if case.startswith(("rconc", "rreg")) else "telemetry"
 
 
 # ---------------------------------------------------------------- monitor (same clauses as the OCaml driver)
 def cap_of(case):
-    c = int(case.split()[2])
+    t = case.split()
+    c = int(t[1] if t[0] in ("reg", "rreg") else t[2])
     return 10000 if c == 0 else c
 
 
@@ -199,10 +263,16 @@ def monitor(cap, obs):
         if k == "S" or re.fullmatch(r"T\d+", k):
             res += v.split(".")
     out = []
-    if any(r.startswith("o") for r in res):
+    if any(re.fullmatch(r"o\d+", r) for r in res):
         out.append("orphan")
-    if any(r.startswith("X") for r in res):
+    if any(re.fullmatch(r"X\d+", r) for r in res):
         out.append("alias")
+    if any(re.fullmatch(r"O\d+", r) for r in res) or ("reg" in f and f["reg"] not in ("1,1", "0,1")):
+        out.append("regsplit")      # registrants of one name hold different metric objects
+    if "panic" in res:
+        out.append("regpanic")
+    if "eother" in res:
+        out.append("regerror")
     if cap > 0 and n > cap:
         out.append("overcap")
     if f.get("c") != str(n):
@@ -213,8 +283,21 @@ def monitor(cap, obs):
 
 
 def conc_obs(line):
-    body = line[5:] if line.startswith("conc ") else line
+    body = line[5:] if line.startswith("conc ") else line[4:] if line.startswith("reg ") else line
     return [o.strip() for o in body.split(" | ") if o.strip()]
+
+
+def obs_monitor(cap, obs):
+    """monitor of a whole observation: a reg observation has one part per metric name"""
+    out = []
+    for part in obs.split(" # "):
+        part = part.strip()
+        if re.match(r"^[a-z]:reg=", part):
+            part = part[2:]
+        for m in monitor(cap, part):
+            if m not in out:
+                out.append(m)
+    return out
 
 
 def rejected(model_line):
@@ -246,7 +329,7 @@ def classify(case, impl, model):
         return "G", "concurrent case: model driver said %r" % model[:200]
     cap = cap_of(case)
     for o in bad:
-        m = monitor(cap, o)
+        m = obs_monitor(cap, o)
         if m:
             return "P", "quiescent observation violates %s: %s" % ("+".join(m), o)
     return "G", "quiescent observation not reachable in the step-interleaving model (monitor clauses hold): %s" % bad[0]
@@ -254,7 +337,7 @@ def classify(case, impl, model):
 
 def signature(case, impl, models):
     """Mechanism of the recorded concurrency defects, derived from what the repaired model rejects."""
-    if not case.startswith(("conc", "rconc")):
+    if not case.startswith(("conc", "rconc", "reg", "rreg")):
         return None
     bad = rejected(models["repaired"])
     if not bad:
@@ -262,9 +345,14 @@ def signature(case, impl, models):
     cap = cap_of(case)
     mech = set()
     for o in bad:
-        m = monitor(cap, o)
-        if not m or "alias" in m:
+        m = obs_monitor(cap, o)
+        if not m or "alias" in m or "regsplit" in m or "regerror" in m:
             return None                       # not one of the recorded mechanisms
+        if "regpanic" in m:
+            kinds = set(x.split("@")[1] for x in case.split()[5:]) if case.startswith(("reg", "rreg")) else set()
+            if len(kinds) < 2:
+                return None
+            mech.add("register-loaded-branch-type-assertion-panic")
         if "orphan" in m or "lost" in m:
             if "r:" not in case:
                 return None
@@ -287,6 +375,18 @@ def shrink(case):
         for i in range(n):
             yield " ".join(head + ops[:i] + ops[i + 1:])
         return
+    if t[0] in ("reg", "rreg"):
+        head, ths = t[:5], t[5:]
+        for i in range(len(ths)):
+            if len(ths) > 1:
+                yield " ".join(head + ths[:i] + ths[i + 1:])
+        for i, th in enumerate(ths):
+            f = th.split("@")
+            ops = f[3].split("/")
+            if f[3] != "-":
+                nf = f[:3] + ["/".join(ops[:-1]) or "-"]
+                yield " ".join(head + ths[:i] + ["@".join(nf)] + ths[i + 1:])
+        return
     head, setup, progs = t[:6], t[6], t[7:]
     for i in range(len(progs)):
         if len(progs) > 1:
@@ -305,12 +405,25 @@ def describe(case, impl, model):
 
 
 def distribution(cases, impl):
-    d = {"seq": 0, "conc": 0, "rconc": 0, "kind": {"c": 0, "g": 0, "h": 0}, "cap": {}, "ops": {}, "seq_tombstones": 0,
+    d = {"seq": 0, "conc": 0, "rconc": 0, "reg": 0, "rreg": 0, "reg_results": {}, "kind": {"c": 0, "g": 0, "h": 0}, "cap": {}, "ops": {}, "seq_tombstones": 0,
          "seq_unregister_true": 0, "seq_panics": 0, "seq_collision_cases": 0, "conc_distinct_observations": 0,
          "conc_cases_with_violating_observation": 0, "conc_violation_classes": {}}
     for c, o in zip(cases, impl):
         t = c.split()
         d[t[0]] += 1
+        if t[0] in ("reg", "rreg"):
+            obs = conc_obs(o or "")
+            d["conc_distinct_observations"] += len(obs)
+            cls = set()
+            for x in obs:
+                cls.update(obs_monitor(cap_of(c), x))
+                for tok in re.findall(r"T\d+=([a-z]+)", x):
+                    d["reg_results"][tok] = d["reg_results"].get(tok, 0) + 1
+            if cls:
+                d["conc_cases_with_violating_observation"] += 1
+            for k in cls:
+                d["conc_violation_classes"][k] = d["conc_violation_classes"].get(k, 0) + 1
+            continue
         d["kind"][t[1]] += 1
         d["cap"][t[2]] = d["cap"].get(t[2], 0) + 1
         if t[0] == "seq":
